@@ -273,7 +273,7 @@ def render_obs(t, data):
     if _ADDR is None:
         import re
 
-        _ADDR = re.compile(r" at 0x[0-9a-fA-F]+")
+        _ADDR = re.compile(r" at 0x[0-9a-f]+", re.I)
     try:
         return ["ok", _ADDR.sub("", t.render(**data))]  # default object reprs carry a memory address
     except Exception as e:  # canonical: error class only
@@ -487,7 +487,9 @@ class Gen:
     def number(self):
         return self.r.choice(["0", "1", "2", "-3", "42", "1.5", "0.00001", "100000000000000000000.0", "-0.5", "007"])
 
-    def prim(self, allow_range=True):
+    def prim(self, allow_range=True, allow_eb=False):
+        # `empty`/`blank` only where they are compared, never where they are written out: their default object repr
+        # carries a memory address, which filters (reverse, slice, truncate …) make impossible to canonicalise
         k = self.r.range(0, 19)
         if k < 9:
             return self.path()
@@ -497,7 +499,7 @@ class Gen:
             return self.number()
         if k == 15:
             return self.r.choice(["true", "false"])
-        if k == 16:
+        if k == 16 and allow_eb:
             return self.r.choice(["empty", "blank"])
         if k == 17 and allow_range:
             self.feat.add("range")
@@ -508,7 +510,7 @@ class Gen:
     def boolean(self, depth=0):
         k = self.r.range(0, 99)
         if depth >= 3 or k < 30:
-            return self.prim(allow_range=False)
+            return self.prim(allow_range=False, allow_eb=True)
         self.feat.add("logical")
         if k < 48:
             return self.boolean(depth + 1) + " and " + self.boolean(depth + 1)
@@ -600,7 +602,7 @@ class Gen:
         if k < 56:
             s = self.tag("case " + self.prim(allow_range=False)) + self.r.choice(["", "\n", " "])
             for _ in range(self.r.choice([1, 2, 3])):
-                ws = [self.prim(allow_range=False) for _ in range(self.r.choice([1, 1, 2, 3]))]
+                ws = [self.prim(allow_range=False, allow_eb=True) for _ in range(self.r.choice([1, 1, 2, 3]))]
                 s += self.tag("when " + self.r.choice([", ", " or "]).join(ws)) + self.block()
                 if self.chance(20):
                     s += self.tag("else") + self.block()
